@@ -9,6 +9,10 @@
 //!         result (final-file not-visible-after-return-count)
 //! kind 2  (2 cap (resp ...) (op ...))  std BufWriter over a scripted short-writing writer
 //!         result ((res inner buffered) ...)
+//! kind 3  (3 pre (op ...))   several O_APPEND writers on one path; file read after every op
+//!         op: (0 h (chunk ...)) append through appender h | (1 d) external OpenOptions::append write
+//!             | (2 h) build appender h in append mode (a previous one in slot h is dropped first)
+//!         result (file ...)
 use log::Record;
 use log4rs::append::file::FileAppender;
 use log4rs::append::Append;
@@ -257,11 +261,55 @@ fn run_bufw(c: &[Val]) -> Val {
     Val::L(res)
 }
 
+fn run_shared(c: &[Val]) -> Val {
+    let dir = tempfile::tempdir().unwrap();
+    let path = prepare_path(dir.path(), &c[1]);
+    let ops = c[2].l();
+    let mut recs: Vec<Vec<Vec<u8>>> = Vec::new();
+    for op in ops {
+        let op = op.l();
+        if op[0].n() == 0 {
+            recs.push(chunks_of(&op[2]));
+        }
+    }
+    let table = Arc::new(vec![recs]);
+    let mut apps: Vec<Option<FileAppender>> = Vec::new();
+    let mut out = Vec::new();
+    let mut seq = 0usize;
+    for op in ops {
+        let op = op.l();
+        match op[0].n() {
+            0 => {
+                let h = op[1].u();
+                let ok = do_append(apps[h].as_ref().expect("appender built"), &format!("0:{}", seq));
+                assert!(ok, "append failed");
+                seq += 1;
+            }
+            1 => {
+                let mut f = std::fs::OpenOptions::new().append(true).open(&path).expect("external open");
+                f.write_all(op[1].s()).expect("external write");
+            }
+            _ => {
+                let h = op[1].u();
+                while apps.len() <= h {
+                    apps.push(None);
+                }
+                drop(apps[h].take());
+                apps[h] = Some(build(&path, true, Box::new(ScriptEncoder { table: table.clone(), yield_mode: 0 })));
+            }
+        }
+        out.push(Val::S(std::fs::read(&path).expect("read log file")));
+    }
+    drop(apps);
+    Val::L(out)
+}
+
 fn run(case: &Val) -> Val {
     let c = case.l();
     match c[0].n() {
         0 => run_seq(c),
         1 => run_conc(c),
+        3 => run_shared(c),
         _ => run_bufw(c),
     }
 }
